@@ -468,24 +468,55 @@ def classify(exp, got):
     return None
 
 
-def entries_without_wrapper(model, header_text):
-    """Name-agnostic existence oracle: every vtable entry of every object type must be invoked by
-    some wrapper of the processed header (`...->{vtbl field})->{entry}(`)."""
+def entries_without_wrapper(model, config, header_text):
+    """For the entries that have no documented name of their own (two traits of one group with a
+    method of the same name): does any wrapper of the processed header invoke them at all?
+    (`...{vtbl field})->{entry}(` inside a function that mentions the group type.) Entries that do
+    have a documented name are checked by using that name (names_program, run_driver)."""
     missing = []
     seen = set()
     chunks = header_text.split("\nstatic inline ")[1:]
-    for o in hdrgen.object_types(model):
+    types, table = wrapper_table(model, config)
+    for o, t in zip(types, table):
         mark = ("struct %s_" % o["name"]) if o["kind"] == "group" else ("%sVtbl_CGlueObjContainer" % o["name"])
-        for v in o["vtbls"]:
-            for f in v["funcs"]:
-                key = (o["kind"], o["name"], v["field"], f[0])
-                if key in seen:
-                    continue
-                seen.add(key)
-                needle = "%s)->%s(" % (v["field"], f[0])
-                if not any(needle in c and mark in c for c in chunks):
-                    missing.append({"kind": o["kind"], "name": o["name"], "field": v["field"], "entry": f[0]})
+        for (field, fname, _first) in t["unnamed"]:
+            key = (o["kind"], o["name"], field, fname)
+            if key in seen:
+                continue
+            seen.add(key)
+            needle = "%s)->%s(" % (field, fname)
+            if not any(needle in c and mark in c for c in chunks):
+                missing.append({"kind": o["kind"], "name": o["name"], "field": field, "entry": fname})
     return missing
+
+
+def names_program(model, config, header_path):
+    """A translation unit that takes the address of every wrapper and drop helper the documented
+    naming rules promise, so that a missing one is a compile error whether or not a plan calls it."""
+    types, table = wrapper_table(model, config)
+    names = []
+    for t in table:
+        for n in list(t["names"].values()) + [t["drop"]]:
+            if n not in names:
+                names.append(n)
+    body = "\n".join("    p[%d] = (void (*)(void))%s;" % (i, n) for i, n in enumerate(names))
+    return '#include <string.h>\n#include "%s"\nint main(void) {\n    void (*p[%d])(void);\n%s\n    return p[0] == 0;\n}\n' % (header_path, max(1, len(names)), body), names
+
+
+def check_names(workdir, model, config, header_path):
+    src = os.path.join(workdir, "names.c")
+    text, names = names_program(model, config, header_path)
+    with open(src, "w") as f:
+        f.write(text)
+    cc = subprocess.run(["cc", "-std=c99", "-fsyntax-only", "-w", src], stdout=subprocess.PIPE, stderr=subprocess.STDOUT, text=True)
+    if cc.returncode != 0:
+        errs = [l for l in cc.stdout.splitlines() if "error" in l]
+        und = [l for l in errs if "undeclared" in l]
+        if und:
+            missing = sorted({n for n in names for l in und if ("‘%s’" % n) in l or ("'%s'" % n) in l})
+            return {"class": "wrap.no_wrapper", "site": "documented name", "msg": "the processed header offers no wrapper of the documented name(s) %s" % ", ".join(missing[:4])}
+        return {"class": "wrap.compile", "site": "cc", "msg": "taking the address of the documented wrappers does not compile: " + " | ".join(e[-200:] for e in errs[:3])}
+    return None
 
 
 CFLAGS = ["-std=c99", "-O0", "-w", "-Werror=implicit-function-declaration", "-Werror=incompatible-pointer-types", "-Werror=int-conversion"]
